@@ -3,8 +3,8 @@ from harness import common, tstate, tsprop
 
 PROP = 'C08'
 DRIVER = 'TorState'
-LEAN_TARGETS = ['TxV.Props.C08']
-PROP_MODULES = ['TxV.Props.C08']
+LEAN_TARGETS = ['TxV.Props.C08', 'TxV.Props.C08b']
+PROP_MODULES = ['TxV.Props.C08', 'TxV.Props.C08b']
 AUDIT = 'Audit/C08.lean'
 ANCHORS = ['txtorcon/circuit.py', 'txtorcon/stream.py', 'txtorcon/torstate.py', 'txtorcon/util.py']
 RULE = ('the C07 histories (snapshot + 10-60 events Tor can emit) crossed with: listeners 1..4 registered for all circuits / all streams before '
